@@ -8,10 +8,24 @@ Record oracles : Type := mkOracles {
   (* strconv.ParseFloat(s, 64): None on error; the value as IEEE bits *)
   o_parse_float : text -> option Z;
   (* strconv.FormatFloat(v, 'f', -1, 64) *)
-  o_format_float : Z -> text
+  o_format_float : Z -> text;
+  (* regexp.Compile(s) succeeds *)
+  o_re_ok : text -> bool;
+  (* time.LoadLocation(name): the location's String(), None on error *)
+  o_load_loc : text -> option text
 }.
 
 (* for the in-Coq evaluation path: cases are restricted to inputs on which
    no oracle is consulted with a non-trivial answer *)
 Definition default_oracles : oracles :=
-  {| o_ulower := fun c => c; o_parse_float := fun _ => None; o_format_float := fun _ => [] |}.
+  {| o_ulower := fun c => c; o_parse_float := fun _ => None; o_format_float := fun _ => [];
+     o_re_ok := fun _ => true; o_load_loc := fun _ => None |}.
+
+(* float64 values are IEEE-754 bit patterns; all NaNs are identified with one pattern *)
+Definition nan_bits : Z := 9221120237041090561.           (* 0x7FF8000000000001 *)
+Definition inf_exp : Z := 9218868437227405312.            (* 0x7FF0000000000000 *)
+Definition f_is_nan (b : Z) : bool := inf_exp <? b mod two63.
+Definition f_canon (b : Z) : Z := if f_is_nan b then nan_bits else b.
+(* x * -1.0: exact sign flip *)
+Definition f_neg (b : Z) : Z :=
+  if f_is_nan b then nan_bits else if b <? two63 then b + two63 else b - two63.
